@@ -195,7 +195,6 @@ pub enum Outcome {
     Timeout,
     Malformed(String),
     Io(String),
-    NotRun,
 }
 
 impl Outcome {
@@ -210,12 +209,11 @@ impl Outcome {
             Outcome::Timeout => "timeout".into(),
             Outcome::Malformed(_) => "malformed".into(),
             Outcome::Io(_) => "io".into(),
-            Outcome::NotRun => "not-run".into(),
         }
     }
     /// harness trouble: never a verdict
     pub fn is_harness_trouble(&self) -> bool {
-        matches!(self, Outcome::Timeout | Outcome::Io(_) | Outcome::NotRun)
+        matches!(self, Outcome::Timeout | Outcome::Io(_))
     }
     pub fn json(&self) -> Value {
         json!(format!("{self:?}"))
@@ -284,10 +282,10 @@ pub fn disconnect(conn: Conn, style: Style) {
 
 /// shrink the client's receive buffer so that a large response cannot vanish
 /// into kernel buffers (keeps the server's response write "long")
-pub fn small_rcvbuf(conn: &Conn) {
+pub fn small_rcvbuf(conn: &Conn, bytes: usize) {
     use std::os::fd::AsRawFd;
     if let Some(s) = &conn.stream {
-        let v: libc::c_int = 4096;
+        let v: libc::c_int = bytes as libc::c_int;
         unsafe {
             libc::setsockopt(
                 s.as_raw_fd(),
